@@ -518,7 +518,8 @@ class BlockUploadStream(io.RawIOBase):
         if res_command & BLOCK_SIZE_SPECIFIED:
             self.size, = struct.unpack_from("<L", response, 4)
             logger.debug("Size is %d bytes", self.size)
-        self.crc_supported = bool(res_command & CRC_SUPPORTED)
+        # The CRC is only generated and checked if both sides support it
+        self.crc_supported = bool(res_command & CRC_SUPPORTED) and request_crc_support
         # Start upload
         request = bytearray(8)
         request[0] = REQUEST_BLOCK_UPLOAD | START_BLOCK_UPLOAD
@@ -689,7 +690,8 @@ class BlockDownloadStream(io.RawIOBase):
                 "on the same SDO channel?")
         self._blksize, = struct.unpack_from("B", response, 4)
         logger.debug("Server requested a block size of %d", self._blksize)
-        self.crc_supported = bool(res_command & CRC_SUPPORTED)
+        # The CRC is only generated and checked if both sides support it
+        self.crc_supported = bool(res_command & CRC_SUPPORTED) and request_crc_support
 
     def write(self, b):
         """
